@@ -3,7 +3,7 @@ table is produced by the native helper from the real std (chartab.load); everyth
 import z3
 from .values import *
 
-R = [0xE9, 0xC9, 0xDF, 0x212A, 0x661, 0xA0, 0x2028, 0x1F600, 0x130]
+R = [0xE9, 0xC9, 0xDF, 0x212A, 0x661, 0xA0, 0x2028, 0x1F600, 0x130, 0xFEFF]
 PREDS = ('is_alphabetic', 'is_numeric', 'is_alphanumeric', 'is_whitespace', 'is_lowercase', 'is_uppercase', 'is_control')
 TABLE = None      # cp -> {'is_alphabetic': bool, ..., 'lower': [cps], 'upper': [cps]}
 
